@@ -505,12 +505,24 @@ def run_json(case):
       continue
     inline = 'noinline' not in step
     allow_nan = 'nan' in step
-    buf = io.BytesIO()
-    try:
-      json_factory.OutputToJSON(buf, inline_attachments=inline,
-                                allow_nan=allow_nan, sort_keys=True)(rec)
-    except Exception as e:  # pylint: disable=broad-except
-      bad('json-output-raised:' + type(e).__name__, step=si, error=str(e)[:120])
+    failed = None
+    for _ in range(4):       # stable pair of reads, see run_record
+      n0 = len(rec.log_records)
+      buf = io.BytesIO()
+      try:
+        json_factory.OutputToJSON(buf, inline_attachments=inline,
+                                  allow_nan=allow_nan, sort_keys=True)(rec)
+      except Exception as e:  # pylint: disable=broad-except
+        failed = e
+        break
+      want0 = render.norm(render.test_rec(rec))
+      if len(rec.log_records) == n0:
+        break
+      c['record_changed_during_comparison'] = c.get(
+          'record_changed_during_comparison', 0) + 1
+    if failed is not None:
+      bad('json-output-raised:' + type(failed).__name__, step=si,
+          error=str(failed)[:120])
       continue
     try:
       doc = strict_loads(buf.getvalue()) if not allow_nan else json.loads(
@@ -519,7 +531,7 @@ def run_json(case):
       bad('json-not-strict', step=si, error=str(e)[:120])
       continue
     c['json_documents_parsed'] += 1
-    want = render.norm(render.test_rec(rec))
+    want = want0
     for p, orig in zip(want['phases'], rec.phases):
       p['attachments'] = {}
       for n, a in orig.attachments.items():
